@@ -23,7 +23,8 @@ FLOORS = {"captured_throws": {"quick": 300, "thorough": 5000}, "later_activation
           "outside_cone_runs_compared": {"quick": 5000, "thorough": 80000}, "try_except_cases": {"quick": 100, "thorough": 1500},
           "thrower_not_first_in_child": {"quick": 40, "thorough": 600}, "map_key_throws": {"quick": 150, "thorough": 2500},
           "captured_throw_with_pending_timer": {"quick": 5, "thorough": 100},
-          "map_other_key_runs_compared": {"quick": 2000, "thorough": 30000}, "map_error_ticks_checked": {"quick": 150, "thorough": 2500}}
+          "map_other_key_runs_compared": {"quick": 2000, "thorough": 30000}, "map_error_ticks_checked": {"quick": 150, "thorough": 2500},
+          "try_around_map_throws": {"quick": 20, "thorough": 300}}
 BATCH = 30
 
 
@@ -173,7 +174,67 @@ def generate(rng, tier, seed):
         if pr:
             cases += list(pr)
             got += 1
+    cases += [gen_try_map(rng, f"c15tm_{seed}_{j}") for j in range(max(8, nm // 3))]
     return cases
+
+
+def gen_try_map(rng, name):
+    """try_except around a sub-graph whose failing node sits inside a keyed map_ child (the map itself captures nothing): the
+    exception crosses the map node on its way to the boundary. Oracle (trace only): one error tick per throw, in the cycle of
+    the throw, carrying the ORIGINAL message; the run continues."""
+    from .prog import Case
+    from .c10 import gen_key_history
+    end = rng.choice([16, 24])
+    c = Case(name, 0, end)
+    c.scripts[1] = [(t, rng.randint(1, 50)) for t in range(0, end, rng.choice([1, 2, 3]))]
+    nk = rng.choice([1, 2, 3])
+    hist = {}
+    for k in range(nk):
+        for t in sorted(rng.sample(range(1, end - 1), rng.choice([3, 5, 8]))):
+            hist.setdefault(t, []).append(f"[{k}]={k * 1000 + t}")
+    c.cscripts[201] = [f"{t}|" + ",".join(ops) for t, ops in sorted(hist.items())]
+    wrap = rng.choice(["none", "none", "nested"])
+    fn = [S("e", "pass", "p0", uid=90), S("x", "acc", "e", uid=91), S("", "RET", "x")]
+    body = [S("d", "csrc", shape="tsd", uid=201), S("m", "map", "d", fn="fn1:0"), S("s", "reduce", "m", fn="sum"), S("q", "add2", "s", "p0", uid=202),
+            S("", "RET", "q")]
+    c.graphs["fn0"] = fn
+    if wrap == "nested":
+        c.graphs["sub1"] = body
+        c.graphs["sub0"] = [S("n", "nested", "p0", sid=1), S("w", "pass", "n", uid=203), S("", "RET", "w")]
+    else:
+        c.graphs["sub0"] = body
+    c.graphs["main"] = [S("a", "src", uid=1, mode=1), S("r_", "try", "a", sid=0), S("o_", "tryout", "r_", uid=300), S("", "tryerr", "r_", uid=301),
+                        S("", "rec", "a", uid=302)]
+    thrower = rng.choice([90, 91])
+    c.faults = [(thrower, "eval", rng.choice([1, 2, 3, 4]))]
+    c.meta.update(how="trymap", thrower=thrower, role="fault")
+    return c
+
+
+def check_try_map(case, tr):
+    res = Result(signature=case.text().split("\n", 1)[1])
+    run = tr.runs[0]
+    V = res.violations
+    if run.error:
+        V.append(Violation(f"run with a fault inside a try_except sub-graph did not continue: {run.error[:200]}"))
+        return res
+    evals, throws, errs, cyc = summarize(run)
+    my = [(t, msg) for u, t, _, msg in errs if u == 301]
+    thrower = case.meta["thrower"]
+    th = [(t, occ) for u, t, occ in throws if u == thrower]
+    if sorted(t for t, _ in my) != sorted(t for t, _ in th):
+        V.append(Violation(f"error output ticked at {sorted(t for t, _ in my)} but the node inside the map child threw at {sorted(t for t, _ in th)}"))
+    for t, occ in th:
+        msgs = [m for te, m in my if te == t]
+        want = f"verif-fault_uid={thrower}_phase=eval_occ={occ}"
+        if msgs and want not in msgs[0]:
+            V.append(Violation(f"error tick at t={t} (exception raised inside a map_ child below the try_except boundary) does not carry the "
+                               f"exception's message {want!r}: {msgs[0][:160]!r}"))
+    if th and cyc and cyc[-1] <= th[0][0] and any(t > th[0][0] for t, _ in case.scripts[1] if t < case.end):
+        V.append(Violation(f"no cycle after the captured throw at t={th[0][0]} although the driving source ticks later"))
+    res.counters = {"try_around_map_throws": len(th), "try_around_map_cases": 1 if th else 0}
+    res.nontrivial = bool(th)
+    return res
 
 
 _ok_runs = {}
@@ -423,6 +484,8 @@ def check(case, tr):
         return res
     if case.meta.get("how") == "map":
         return check_map(case, tr)
+    if case.meta.get("how") == "trymap":
+        return check_try_map(case, tr)
     run = tr.runs[0]
     key = case.name.rsplit("_", 1)[0]
     if case.meta["role"] == "ok":
